@@ -123,6 +123,11 @@ func VerifC18_Overlay() {
 		}
 		zzAssert(serr == nil, "C18.open.present")
 		zzAssert(st.IsDir() == wantDir, "C18.open.kind-from-first-layer")
+		if wantDir {
+			// the first layer that has the path decides: a directory there is
+			// not readable as a file, whatever lower layers hold
+			zzAssert(err != nil, "C18.open.directory-shadows-lower-file")
+		}
 		if !wantDir {
 			zzAssert(err == nil && string(data) == want, "C18.open.content-from-first-layer")
 			zzAssert(st.Size() == int64(len(want)), "C18.open.metadata-from-first-layer")
